@@ -71,7 +71,7 @@ Proof. destruct k; cbn; congruence. Qed.
 
 Lemma cleanup_k c crit k w wr closed lo mid :
   numkcfg c crit k -> kside c k (length closed) -> NumKInv c w wr closed lo mid ->
-  exists w', cleanup_impl c w k IFNum false = (Ok tt, w') /\ same_env w w'
+  exists w', cleanup_impl c w k IFNum None = (Ok tt, w') /\ same_env w w'
     /\ NumKInv c w' wr closed (knew_lo k lo (length closed)) (knew_mid k mid (length closed))
     /\ cur_view w' wr = cur_view w wr.
 Proof.
@@ -366,8 +366,8 @@ Proof.
     - unfold wr_ok, wr. cbn. destruct (c_cap c); [lia | reflexivity].
     - reflexivity. }
   (* the initial cleanup *)
-  assert (Ecl : match k with KNever => (Ok tt, w2) | _ => cleanup_impl c w2 k (ns_filter (NSNumR 0)) (naming_writes_direct NNumbers) end
-                = cleanup_impl c w2 k IFNum false) by (destruct k; reflexivity).
+  assert (Ecl : forall d, match k with KNever => (Ok tt, w2) | _ => cleanup_impl c w2 k (ns_filter (NSNumR 0)) (if naming_writes_direct NNumbers then Some d else None) end
+                = cleanup_impl c w2 k IFNum None) by (intros d; destruct k; reflexivity).
   rewrite Ecl. clear Ecl.
   destruct (cleanup_k c crit k w2 wr [] 0 0 Hcfg Hside I2) as (w4 & E4 & S4 & I4 & V4). rewrite E4. cbn [bind].
   assert (Ebg : match k with KNever => false | _ => c_bg c end = false) by (destruct k; auto).
